@@ -84,7 +84,7 @@ func enumSeqDistance(thorough bool) map[string]any {
 		}
 		for _, r := range order {
 			f := msgs[r.msg].frames[r.idx]
-			if pn := safely("handleIncomingFrame", func() { face.VerifC10Recv(rcv, f) }); pn != "" {
+			if pn := safely("handleIncomingFrame", func() { recvReused(ctx, rcv, f) }); pn != "" {
 				addVio("C10.order", "interleaved messages with distant base sequences: "+pn, base, mtu, 0, pn, replay)
 				return
 			}
